@@ -81,6 +81,13 @@ func convertError(err error) error {
 		return err
 	}
 
+	// UNKNOWN without per-update details is not a P4Runtime batch error (e.g. an exception
+	// in the server): return it as it is. An empty P4RuntimeError would read as
+	// "no update failed" to callers that inspect the per-update statuses.
+	if len(st.Details()) == 0 {
+		return err
+	}
+
 	p4RtError := &P4RuntimeError{
 		errors: make([]*p4.Error, 0),
 	}
